@@ -2,7 +2,7 @@
 loads) whose content is arbitrary; the shell specification constrains only the state sequence."""
 import random, itertools
 
-SIGMA = "19.EDedAFGOTRMNX$!#%&H\"'?:;,()+-*/\\^<=> é"
+SIGMA = "19.EDedAFGOTRMNX$!#%&H\"'?:;,()+-*/\\^<=> é\u00a0\u3000"
 
 MENU_LINES = ["10 INPUT A", "10 INPUT \"Q\";A,B$", "10 INPUT A$", "20 PRINT A;", "30 A$=INKEY$", "40 GOTO 10", "40 GOTO 40", "50 END", "60 STOP",
               "15", "99", "70 FOR I=1 TO 3:PRINT I:NEXT", "80 GOSUB 80", "90 X=1\\0", "100 WHILE 1:WEND", "110 LIST",
@@ -92,7 +92,8 @@ def soup_sessions(seed, n, lines):
     r = random.Random(seed)
     words = ["PRINT", "GOTO", "GOSUB", "FOR", "TO", "NEXT", "IF", "THEN", "ELSE", "INPUT", "REM", "DATA", "READ", "ON", "DEF",
              "FN", "DIM", "LET", "MID$", "LEFT$", "CHR$", "(", ")", ",", ";", ":", "=", "<", ">", "+", "-", "*", "/", "^", "\\",
-             "\"", "1", "10", "65529", "65530", "1E38", "1D308", "&HFFFF", "A", "A$", "A%", "X(", "é", "😀", " ", "\t"]
+             "\"", "1", "10", "65529", "65530", "1E38", "1D308", "&HFFFF", "A", "A$", "A%", "X(", "é", "😀", " ", "\t",
+             "\u00a0", "\u2003", "\u3000", "\u0085"]
     out = []
     for i in range(n):
         ops = []
